@@ -141,16 +141,16 @@ impl<Read: ReadHalf> ReadConnection<Read> {
     {
         self.read_from_socket().await?;
 
-        // The message ends at the first null byte. `read_from_socket` only returns once the data
-        // ends in one, so there always is one. Don't rely on the deserializer to find the end of
-        // the message, as it stops early on errors and doesn't consume trailing whitespace.
+        // The message ends at the first null byte. `read_from_socket` only returns once there is
+        // one. Don't rely on the deserializer to find the end of the message, as it stops early on
+        // errors and doesn't consume trailing whitespace.
         let null_index = self.buffer[self.msg_pos..self.read_pos]
             .iter()
             .position(|&b| b == b'\0')
             .map_or(self.read_pos, |i| self.msg_pos + i);
         let buffer = &self.buffer[self.msg_pos..null_index];
         let msg = serde_json::from_slice::<M>(buffer);
-        if self.buffer[null_index + 1] == b'\0' {
+        if null_index + 1 >= self.read_pos {
             // This means we're reading the last message and can now reset the indices.
             self.read_pos = 0;
             self.msg_pos = 0;
@@ -172,17 +172,24 @@ impl<Read: ReadHalf> ReadConnection<Read> {
     }
 
     // Reads at least one full message from the socket.
+    //
+    // A message that has arrived completely is handed out even if the beginning of the next one is
+    // already there: what follows it stays in the buffer until the rest arrives.
     async fn read_from_socket(&mut self) -> Result<()> {
-        if self.msg_pos > 0 {
+        self.skip_padding();
+        if self.buffer[self.msg_pos..self.read_pos].contains(&b'\0') {
             // This means we already have at least one message in the buffer so no need to read.
             return Ok(());
         }
+        // Otherwise only the beginning of a message (if anything) is left over from the last read
+        // and the rest of it is appended.
 
         loop {
             let bytes_read = self.socket.read(&mut self.buffer[self.read_pos..]).await?;
             if bytes_read == 0 {
                 return Err(crate::Error::UnexpectedEof);
             }
+            let new_data = self.read_pos;
             self.read_pos += bytes_read;
 
             if self.read_pos == self.buffer.len() {
@@ -193,18 +200,21 @@ impl<Read: ReadHalf> ReadConnection<Read> {
                 self.buffer.extend(core::iter::repeat_n(0, BUFFER_SIZE));
             }
 
-            // This marks end of all messages. After this loop is finished, we'll have 2 consecutive
-            // null bytes at the end. This is then used by the callers to determine that they've
-            // read all messages and can now reset the `read_pos`.
-            self.buffer[self.read_pos] = b'\0';
-
-            if self.buffer[self.read_pos - 1] == b'\0' {
+            self.skip_padding();
+            if self.buffer[new_data.max(self.msg_pos)..self.read_pos].contains(&b'\0') {
                 // One or more full messages were read.
                 break;
             }
         }
 
         Ok(())
+    }
+
+    // Messages are never empty: a null byte where one would start is only padding.
+    fn skip_padding(&mut self) {
+        while self.msg_pos < self.read_pos && self.buffer[self.msg_pos] == b'\0' {
+            self.msg_pos += 1;
+        }
     }
 
     /// The underlying read half of the socket.
